@@ -1,10 +1,10 @@
 package ciphersuite
 
 //symgo:pkg github.com/pion/dtls/v3/pkg/crypto/ciphersuite
-//symgo:param NCID quick=2 thorough=4
-//symgo:param NPAY quick=2 thorough=5
+//symgo:param NCID quick=2 thorough=3
+//symgo:param NPAY quick=2 thorough=4
 //symgo:param NMAC quick=1 thorough=2
-//symgo:param NBLK quick=3 thorough=5
+//symgo:param NBLK quick=3 thorough=4
 //symgo:param CIDSEL quick=1 thorough=2
 //symgo:stub the CBC block mode is a harness fake (zzFakeCBC): CryptBlocks yields an arbitrary symbolic plaintext body (what an attacker-chosen ciphertext may decrypt to); the hash under HMAC is a harness fake (zzRecHash) that records everything written to it and whose digest is an arbitrary symbolic value, so the HMAC result is an arbitrary value and "the MAC verifies" means "that value equals the MAC bytes found in the body"
 //symgo:replace crypto/internal/fips140.RecordNonApproved zzNop
